@@ -3,9 +3,12 @@
    Part 0: declaration-order independence (warm-up).
    Part 1: string tools (terminated splits, the framing lemma).
    Part 2: the framing theorem  content_id a = content_id b -> ceq_r a b  (values related by rendering).
-   Part 3: value-level injectivity of the rendering (scalars; flat tuples / frozensets of atoms). *)
+   Part 3: value-level injectivity of the rendering on scalars; completeness for scalar-valued trees.
+   Part 4: the premises are satisfiable (example).
+   Part 5/6: repr of arbitrarily nested values is self-delimiting and injective (str escapes and quote choice
+           inverted, sorted frozenset rendering); completeness and the iff for all values of the model. *)
 From Oak Require Import Spec.CEq Proofs.AccessProofs Proofs.TraverseProofs Proofs.EncodeSound.
-From Coq Require Import Sorted.
+From Coq Require Import Sorted DecimalString DecimalPos DecimalZ.
 Local Open Scope char_scope.
 
 (* ===================================================================================================== *)
@@ -294,11 +297,11 @@ Definition ceq_r : ctable -> node -> node -> Prop := ceq_gen render_eq.
 Lemma ceq_gen_veq ct a b : ceq_gen veq ct a b <-> ceq ct a b.
 Proof. reflexivity. Qed.
 
-(* a predicate on (class name, property value) holding at every node of a tree *)
-Fixpoint node_all (Pc : pystr -> Prop) (Pv : pval -> Prop) (n : node) : Prop :=
+(* a predicate on class names and on (class name, field name, property value) holding at every node of a tree *)
+Fixpoint node_all (Pc : pystr -> Prop) (Pv : pystr -> pystr -> pval -> Prop) (n : node) : Prop :=
   match n with
   | Node _ c _ ps ks =>
-    Pc c /\ (forall q, In q ps -> Pv (snd q)) /\
+    Pc c /\ (forall q, In q ps -> Pv c (fst q) (snd q)) /\
     (fix kids (ks : list (pystr * (kshape * list node))) : Prop :=
        match ks with
        | [] => True
@@ -307,9 +310,19 @@ Fixpoint node_all (Pc : pystr -> Prop) (Pv : pval -> Prop) (n : node) : Prop :=
        end) ks
   end.
 
+(* P holds of the values of the comparable properties (the only ones the digest reads) *)
+Definition on_comparable (ct : ctable) (P : pval -> Prop) (c name : pystr) (v : pval) : Prop :=
+  (exists f, In f (comparable ct c) /\ fd_name f = name) -> P v.
+
+Lemma assoc_in {A} (l : list (pystr * A)) k w : assoc k l = Some w -> In (k, w) l.
+Proof.
+  induction l as [|[k0 w0] l IH]; simpl; intros E; [discriminate|].
+  destruct (pystr_eqb_spec k0 k) as [->|N]; [injection E as <-; auto|auto].
+Qed.
+
 Lemma node_all_cls Pc Pv n : node_all Pc Pv n -> Pc (cls n).
 Proof. destruct n. cbn. tauto. Qed.
-Lemma node_all_props Pc Pv n : node_all Pc Pv n -> forall q, In q (nprops n) -> Pv (snd q).
+Lemma node_all_props Pc Pv n : node_all Pc Pv n -> forall q, In q (nprops n) -> Pv (cls n) (fst q) (snd q).
 Proof. destruct n. cbn. tauto. Qed.
 Lemma node_all_kids Pc Pv n : node_all Pc Pv n ->
   forall k, In k (nkids n) -> forall x, In x (snd (snd k)) -> node_all Pc Pv x.
@@ -331,27 +344,35 @@ Proof.
   - specialize (IHk Hk). lia.
 Qed.
 
-(* monotonicity: the value relation may be strengthened on the values that occur *)
+(* monotonicity: the value relation may be strengthened on the comparable values that occur *)
+Lemma node_all_impl (Pc Qc : pystr -> Prop) (Pv Qv : pystr -> pystr -> pval -> Prop) :
+  (forall c, Pc c -> Qc c) -> (forall c n v, Pv c n v -> Qv c n v) ->
+  forall n, node_all Pc Pv n -> node_all Qc Qv n.
+Proof.
+  intros HC HPQ. fix IH 1. intros [a c o ps ks]. cbn [node_all]. intros (H1 & H2 & H3).
+  split; [exact (HC _ H1)|]. split; [intros q Hq; apply HPQ, H2, Hq|].
+  induction ks as [|k ks IHk]; [exact I|]. destruct H3 as [H3 H4]. split; [|apply IHk, H4].
+  clear -IH H3. induction (snd (snd k)) as [|x l IHl]; [exact I|]. destruct H3 as [H3 H5].
+  split; [apply IH, H3|apply IHl, H5].
+Qed.
+
 Lemma ceq_gen_mono (R S : pval -> pval -> Prop) (P : pval -> Prop) ct :
   (forall v v', P v -> P v' -> R v v' -> S v v') ->
-  forall a b, node_all (fun _ => True) P a -> node_all (fun _ => True) P b -> ceq_gen R ct a b -> ceq_gen S ct a b.
+  forall a b, node_all (fun _ => True) (on_comparable ct P) a -> node_all (fun _ => True) (on_comparable ct P) b ->
+  ceq_gen R ct a b -> ceq_gen S ct a b.
 Proof.
   intros HRS. induction a as [a IH] using size_induction. intros b Pa Pb Hc.
   destruct a as [aa c o ps ks], b as [ab c' o' ps' ks'].
   apply ceq_gen_unfold in Hc as (<- & Hp & Hk). apply ceq_gen_unfold. split; [reflexivity|]. split.
   - intros f Hf. specialize (Hp f Hf).
     destruct (assoc (fd_name f) ps) as [v|] eqn:E1, (assoc (fd_name f) ps') as [v'|] eqn:E2; auto.
-    assert (G : forall (l : list (pystr * pval)) k w, assoc k l = Some w -> exists q, In q l /\ snd q = w).
-    { induction l as [|[k0 w0] l IHl]; simpl; intros k w E; [discriminate|].
-      destruct (pystr_eqb k0 k); [injection E as <-; exists (k0, w0); auto|].
-      destruct (IHl _ _ E) as (q & Hq & Eq). exists q; auto. }
-    apply G in E1 as (q & Hq & <-). apply G in E2 as (q' & Hq' & <-).
+    apply assoc_in in E1, E2.
     apply HRS; auto.
-    + apply (node_all_props _ _ _ Pa q Hq).
-    + apply (node_all_props _ _ _ Pb q' Hq').
-  - assert (KA : forall k, In k ks -> forall x, In x (snd (snd k)) -> size x < size (Node aa c o ps ks) /\ node_all (fun _ => True) P x).
+    + apply (node_all_props _ _ _ Pa _ E1). exists f. auto.
+    + apply (node_all_props _ _ _ Pb _ E2). exists f. auto.
+  - assert (KA : forall k, In k ks -> forall x, In x (snd (snd k)) -> size x < size (Node aa c o ps ks) /\ node_all (fun _ => True) (on_comparable ct P) x).
     { intros k Hk0 x Hx. split; [eapply kid_smaller; eauto | eapply (node_all_kids _ _ _ Pa); eauto]. }
-    assert (KB : forall k, In k ks' -> forall x, In x (snd (snd k)) -> node_all (fun _ => True) P x).
+    assert (KB : forall k, In k ks' -> forall x, In x (snd (snd k)) -> node_all (fun _ => True) (on_comparable ct P) x).
     { intros k Hk0 x Hx. eapply (node_all_kids _ _ _ Pb); eauto. }
     clear Pa Pb Hp. set (N := size (Node aa c o ps ks)) in *. clearbody N.
     induction Hk as [|k k' ks ks' (H1 & H2 & H3) Hr IHk]; constructor.
@@ -427,3 +448,966 @@ Section Complete.
       split; [|exact Er]. intros g [<-|Hg]; [rewrite E1, E2; exact Hr | exact (Hall g Hg)].
   Qed.
 End Complete.
+
+(* ===================================================================================================== *)
+(* Part 2b: the child pieces                                                                             *)
+(* ===================================================================================================== *)
+Definition kp (f : pystr) (i : option nat) (d : pystr) : pystr := ":" :: f ++ "[" :: ridx i ++ "]" :: "=" :: d.
+
+Fixpoint many (f : pystr) (i : nat) (l : list pystr) : pystr :=
+  match l with [] => [] | d :: r => kp f (Some i) d ++ many f (S i) r end.
+
+(* what one field contributes to the preimage *)
+Definition blk (f : pystr) (v : kshape * list pystr) : pystr :=
+  match v with
+  | (ShNone, _) => []
+  | (ShOne, l) => match l with [] => [] | d :: _ => kp f None d end
+  | (ShMany, l) => many f 0 l
+  end.
+
+Lemma kids_cid_only_blk ct c kv :
+  kids_cid_only ct c kv = flat_map (fun f => blk (fd_name f) (field_value kv f)) (kid_fields ct c true).
+Proof.
+  unfold kids_cid_only, edges_view. rewrite flat_map_flat_map. apply flat_map_ext. intros f.
+  destruct (field_value kv f) as [sh l]. destruct sh; cbn [field_children blk].
+  - reflexivity.
+  - destruct l as [|d l]; [reflexivity|]. cbn [firstn map flat_map fst snd]. rewrite app_nil_r. reflexivity.
+  - rewrite map_map. cbn [fst snd]. generalize 0 as i.
+    induction l as [|d l IH]; intros i; [reflexivity|].
+    cbn [number_from map flat_map many fst snd]. rewrite IH. reflexivity.
+Qed.
+
+(* the rest of a preimage after the pieces of field f: empty, or the piece of another field *)
+Definition other_start (f : pystr) (r : pystr) : Prop :=
+  r = [] \/ exists g z, r = ":" :: g ++ "[" :: z /\ g <> f /\ free_of "[" g = true.
+
+Lemma other_start_colon f r : other_start f r -> colon_start r.
+Proof. intros [->|(g & z & -> & _)]; [left|right]; eauto. Qed.
+
+Lemma other_start_clash f r z : free_of "[" f = true -> other_start f r -> r = ":" :: f ++ "[" :: z -> False.
+Proof.
+  intros Hf [->|(g & y & -> & Hn & Hg)] E; [discriminate|].
+  injection E as E.
+  assert (Hs : nochar "[" "[" = false) by reflexivity.
+  destruct (split_unique (nochar "[") "[" Hs _ _ _ _ Hg Hf E) as [Eg _]. auto.
+Qed.
+
+Lemma kp_start f i d : kp f i d = ":" :: f ++ "[" :: (ridx i ++ "]" :: "=" :: d).
+Proof. reflexivity. Qed.
+
+Lemma blks_other_start (kv : list (pystr * (kshape * list pystr))) f fs :
+  (forall g, In g fs -> fd_name g <> f /\ free_of "[" (fd_name g) = true) ->
+  other_start f (flat_map (fun g => blk (fd_name g) (field_value kv g)) fs).
+Proof.
+  induction fs as [|g fs IH]; intros Hg; cbn [flat_map]; [left; reflexivity|].
+  assert (IH' := IH (fun g' Hg' => Hg g' (or_intror Hg'))). clear IH.
+  destruct (Hg g (or_introl eq_refl)) as [Hn Hb].
+  destruct (field_value kv g) as [sh l]. destruct sh; cbn [blk app].
+  - exact IH'.
+  - destruct l as [|d l]; [exact IH'|]. right. rewrite kp_start. cbn [app]. rewrite <- app_assoc. cbn [app]. eauto.
+  - destruct l as [|d l]; [exact IH'|]. right. cbn [many]. rewrite kp_start. cbn [app]. rewrite <- !app_assoc. cbn [app]. eauto.
+Qed.
+
+(* shapes allowed by the declared kind of a field (on digest views) *)
+Definition shape_okd {A} (k : ckind) (v : kshape * list A) : Prop :=
+  match k, v with
+  | KOpt _, (ShNone, []) => True
+  | KOpt _, (ShOne, [_]) => True
+  | KTup, (ShMany, _) => True
+  | _, _ => False
+  end.
+
+Definition hexes (l : list pystr) : Prop := forall d, In d l -> forallb is_hex d = true.
+
+Lemma hex_tail d d' r r' : forallb is_hex d = true -> forallb is_hex d' = true ->
+  colon_start r -> colon_start r' -> d ++ r = d' ++ r' -> d = d' /\ r = r'.
+Proof.
+  intros Hd Hd' Hr Hr'. apply (split_term is_hex); auto; apply colon_start_stops; auto.
+Qed.
+
+Lemma kp_inj f i d d' r r' : forallb is_hex d = true -> forallb is_hex d' = true ->
+  colon_start r -> colon_start r' -> kp f i d ++ r = kp f i d' ++ r' -> d = d' /\ r = r'.
+Proof.
+  intros Hd Hd' Hr Hr' E. unfold kp in E. norm_in E. injection E as E.
+  apply app_inv_head in E. injection E as E. apply app_inv_head in E. injection E as E.
+  apply hex_tail; auto.
+Qed.
+
+Lemma many_colon f i l : colon_start (many f i l).
+Proof. destruct l; cbn [many]; [left; auto|right]. unfold kp. cbn [app]. eauto. Qed.
+
+Lemma many_inj f : free_of "[" f = true -> forall l l' i r r', hexes l -> hexes l' ->
+  other_start f r -> other_start f r' -> many f i l ++ r = many f i l' ++ r' -> l = l' /\ r = r'.
+Proof.
+  intros Hf. induction l as [|d l IH]; intros [|d' l'] i r r' Hl Hl' Hr Hr' E; cbn [many app] in E.
+  - auto.
+  - exfalso. rewrite kp_start in E. norm_in E. eapply (other_start_clash f r); eauto.
+  - exfalso. rewrite kp_start in E. norm_in E. symmetry in E. eapply (other_start_clash f r'); eauto.
+  - rewrite <- !app_assoc in E. apply kp_inj in E as [-> E].
+    + apply IH in E as [-> ->]; auto; intros x Hx; [apply Hl|apply Hl']; simpl; auto.
+    + apply Hl; simpl; auto.
+    + apply Hl'; simpl; auto.
+    + apply colon_start_app; [apply many_colon|eapply other_start_colon; eauto].
+    + apply colon_start_app; [apply many_colon|eapply other_start_colon; eauto].
+Qed.
+
+Lemma blk_inj f k v v' r r' : free_of "[" f = true -> shape_okd k v -> shape_okd k v' ->
+  hexes (snd v) -> hexes (snd v') -> other_start f r -> other_start f r' ->
+  blk f v ++ r = blk f v' ++ r' -> v = v' /\ r = r'.
+Proof.
+  intros Hf Sv Sv' Hv Hv' Hr Hr' E.
+  destruct v as [sh l], v' as [sh' l']. cbn [snd] in *.
+  destruct k as [opt|].
+  - destruct sh, l as [|d [|? ?]]; cbn [shape_okd] in Sv; try tauto;
+      destruct sh', l' as [|d' [|? ?]]; cbn [shape_okd] in Sv'; try tauto; cbn [blk app] in E; try tauto.
+    + exfalso. rewrite kp_start in E. norm_in E. eapply (other_start_clash f r); eauto.
+    + exfalso. rewrite kp_start in E. norm_in E. symmetry in E. eapply (other_start_clash f r'); eauto.
+    + apply kp_inj in E as [-> ->]; auto.
+      * apply Hv; simpl; auto.
+      * apply Hv'; simpl; auto.
+      * eapply other_start_colon; eauto.
+      * eapply other_start_colon; eauto.
+  - destruct sh; cbn [shape_okd] in Sv; try tauto. destruct sh'; cbn [shape_okd] in Sv'; try tauto.
+    cbn [blk] in E. apply many_inj in E as [-> ->]; auto.
+Qed.
+
+Lemma blks_inj (kv kv' : list (pystr * (kshape * list pystr))) fs :
+  NoDup (map fd_name fs) ->
+  (forall g, In g fs -> free_of "[" (fd_name g) = true) ->
+  (forall g, In g fs -> exists k, shape_okd k (field_value kv g) /\ shape_okd k (field_value kv' g)) ->
+  (forall g, In g fs -> hexes (snd (field_value kv g)) /\ hexes (snd (field_value kv' g))) ->
+  flat_map (fun g => blk (fd_name g) (field_value kv g)) fs = flat_map (fun g => blk (fd_name g) (field_value kv' g)) fs ->
+  forall g, In g fs -> field_value kv g = field_value kv' g.
+Proof.
+  induction fs as [|f fs IH]; intros Hn Hb Hs Hh E g Hg; [destruct Hg|].
+  inversion Hn as [|? ? Hf Hn']; subst. cbn [flat_map] in E.
+  assert (Ho : forall kv0, other_start (fd_name f) (flat_map (fun g => blk (fd_name g) (field_value kv0 g)) fs)).
+  { intros kv0. apply blks_other_start. intros g' Hg'. split; [|apply Hb; simpl; auto].
+    intros En. apply Hf. rewrite <- En. now apply in_map. }
+  destruct (Hs f (or_introl eq_refl)) as (k & S1 & S2).
+  destruct (Hh f (or_introl eq_refl)) as (X1 & X2).
+  apply (blk_inj (fd_name f) k) in E as [Ev Er]; auto; [|apply Hb; simpl; auto].
+  destruct Hg as [<-|Hg]; auto.
+  apply IH; auto; intros g' Hg'; [apply Hb|apply Hs|apply Hh]; simpl; auto.
+Qed.
+
+(* ===================================================================================================== *)
+(* Part 2c: what a conforming node stores                                                                *)
+(* ===================================================================================================== *)
+Lemma assoc_some {A} (l : list (pystr * A)) k : In k (map fst l) -> exists w, assoc k l = Some w.
+Proof.
+  induction l as [|[k0 w0] l IH]; simpl; intros Hin; [tauto|].
+  destruct (pystr_eqb_spec k0 k) as [->|N]; eauto. destruct Hin as [E|Hin]; [congruence|auto].
+Qed.
+
+Lemma zip_ok_in {A B} (p : A -> B -> bool) fs ks : zip_ok p fs ks = true ->
+  forall f, In f fs -> exists k, In k ks /\ p f k = true.
+Proof.
+  revert ks. induction fs as [|f0 fs IH]; intros [|k0 ks] Hz f Hf; simpl in *; try discriminate; [tauto|].
+  apply andb_prop in Hz as [H1 H2]. destruct Hf as [<-|Hf]; eauto.
+  destruct (IH ks H2 f Hf) as (k & Hk & Hp). eauto.
+Qed.
+
+Lemma field_value_map_view {A B} (g : A -> B) ks f :
+  field_value (map_view g ks) f = (fst (field_value ks f), map g (snd (field_value ks f))).
+Proof. unfold field_value. rewrite assoc_map_view. destruct (assoc (fd_name f) ks) as [[sh l]|]; reflexivity. Qed.
+
+Lemma field_value_in {A} (ks : list (pystr * (kshape * list A))) f x :
+  In x (snd (field_value ks f)) -> exists k, In k ks /\ In x (snd (snd k)).
+Proof.
+  unfold field_value. destruct (assoc (fd_name f) ks) as [v|] eqn:E; [|intros []].
+  intros Hx. apply assoc_in in E. exists (fd_name f, v). auto.
+Qed.
+
+Section Conform.
+  Variable ct : ctable.
+
+  Lemma wf_prop_values n : wf_node ct n = true ->
+    forall f, In f (prop_fields ct (cls n)) -> exists v, assoc (fd_name f) (nprops n) = Some v.
+  Proof.
+    destruct n as [a c o ps ks]. cbn [wf_node cls nprops]. intros W f Hf.
+    apply andb_prop in W as [W _]. apply andb_prop in W as [W _].
+    apply assoc_some. erewrite <- (zip_ok_names _ _ _ _ W). now apply in_map.
+    Unshelve. intros g k Hp. now apply pystr_eqb_eq.
+  Qed.
+
+  Lemma wf_child_shape n : wf_node ct n = true ->
+    forall f, In f (child_fields ct (cls n)) -> shape_ok (child_kind f) (field_value (nkids n) f) = true.
+  Proof.
+    intros W f Hf.
+    pose proof (wf_child_names ct n W) as Hn.
+    assert (Hd : NoDup (map fst (nkids n))) by (rewrite <- Hn; apply child_fields_nodup).
+    destruct n as [a c o ps ks]. cbn [wf_node cls nkids] in *.
+    apply andb_prop in W as [W _]. apply andb_prop in W as [_ W].
+    destruct (zip_ok_in _ _ _ W f Hf) as ([kn kv] & Hk & Hp).
+    apply andb_prop in Hp as [Hp1 Hp2]. apply pystr_eqb_eq in Hp1. cbn [fst snd] in *.
+    unfold field_value. rewrite Hp1. rewrite (assoc_nodup ks kn kv Hd Hk). exact Hp2.
+  Qed.
+
+  Lemma shape_ok_okd {B} (g : node -> B) k v : shape_ok k v = true -> shape_okd k (fst v, map g (snd v)).
+  Proof.
+    destruct v as [sh l]. cbn [fst snd].
+    destruct k as [[|]|], sh, l as [|x [|y l]]; cbn; try discriminate; auto.
+  Qed.
+
+  (* every comparable user property is read by the encoder as soon as no user field shadows a built-in one *)
+  Lemma comparable_enc c f : builtin f = false -> In f (comparable ct c) ->
+    In f (get_properties_fields true ct c enc_flags true).
+  Proof.
+    intros Hb Hf. unfold comparable in Hf. apply filter_In in Hf as [Hf Hc].
+    unfold get_properties_fields. apply filter_In. split.
+    - apply (Permutation_in _ (isort_perm by_name (all_props ct c))). unfold all_props. simpl. auto.
+    - unfold builtin in Hb. apply orb_false_elim in Hb as [Hb H3]. apply orb_false_elim in Hb as [H1 H2].
+      unfold yields. rewrite H1, H2, H3, Hc. cbn. now rewrite orb_true_r.
+  Qed.
+
+  Lemma kid_fields_in c f : In f (kid_fields ct c true) <-> In f (child_fields ct c).
+  Proof.
+    unfold kid_fields, sort_fields. split; apply Permutation_in;
+      [apply Permutation_sym|]; apply isort_perm.
+  Qed.
+
+  Lemma kid_fields_nodup c : NoDup (map fd_name (kid_fields ct c true)).
+  Proof.
+    apply (Permutation_NoDup (l := map fd_name (child_fields ct c))); [|apply child_fields_nodup].
+    apply Permutation_map. unfold kid_fields, sort_fields. apply isort_perm.
+  Qed.
+End Conform.
+
+Lemma blk_colon f v : colon_start (blk f v).
+Proof.
+  destruct v as [[| |] l]; cbn [blk]; [left; auto| |apply many_colon].
+  destruct l; [left; auto|right]. unfold kp. eauto.
+Qed.
+
+(* ===================================================================================================== *)
+(* Part 2d: the framing theorem                                                                          *)
+(* ===================================================================================================== *)
+(* Hypotheses on names (all of them hold when names are Python identifiers):
+   - no user field is called id / content_id / origin (such a property would be comparable for the spec but
+     is never read by the encoder);
+   - child field names contain no '[' (used to tell an absent optional / a shorter tuple from the next field). *)
+Definition names_ok (ct : ctable) : Prop :=
+  forall c f, In f (fields_of ct c) -> builtin f = false /\ (is_child f = true -> free_of "[" (fd_name f) = true).
+
+(* Hypotheses on the nodes of a tree: class names contain no ':' (the class name is the unframed head of the
+   preimage) and the class name of an enum-valued property contains no '(' (it is part of the unframed type tag). *)
+Definition node_values_ok (ct : ctable) (n : node) : Prop :=
+  node_all (fun c => free_of ":" c = true) (on_comparable ct tag_ok) n.
+
+(* a simpler sufficient condition: every property value, comparable or not, has a '('-free tag *)
+Lemma node_values_ok_all ct n :
+  node_all (fun c => free_of ":" c = true) (fun _ _ v => tag_ok v) n -> node_values_ok ct n.
+Proof. apply node_all_impl; [auto|]. intros c name v Hv _. exact Hv. Qed.
+
+Section Complete2.
+  Variable H : pystr -> pystr.
+  Variable ct : ctable.
+  Hypothesis H_inj : forall x y, H x = H y -> x = y.
+  Hypothesis H_hex : forall x, forallb is_hex (H x) = true.
+  Hypothesis NO : names_ok ct.
+
+  Notation cid := (content_id H ct current).
+
+  Lemma tail_colon c ps kv : colon_start (props_data ct current true c ps ++ kids_cid_only ct c kv).
+  Proof.
+    apply colon_start_app.
+    - unfold props_data. apply colon_start_flat_map. intros p. right. rewrite prop_piece_eq. eauto.
+    - rewrite kids_cid_only_blk. apply colon_start_flat_map. intros f. apply blk_colon.
+  Qed.
+
+  Theorem complete_framing_strong : forall a b,
+    wf_node ct a = true -> wf_node ct b = true -> node_values_ok ct a -> node_values_ok ct b ->
+    cid a = cid b -> ceq_r ct a b.
+  Proof.
+    induction a as [a IH] using size_induction. intros b Wa Wb Oa Ob E. unfold node_values_ok in *.
+    rewrite (content_id_unfold H ct current a), (content_id_unfold H ct current b) in E. apply H_inj in E.
+    assert (Hn : nochar ":" ":" = false) by reflexivity.
+    destruct (split_term (nochar ":") _ _ _ _
+                (node_all_cls _ _ _ Oa) (node_all_cls _ _ _ Ob)
+                (colon_start_stops _ _ Hn (tail_colon _ _ _)) (colon_start_stops _ _ Hn (tail_colon _ _ _)) E) as [Ec E1].
+    clear E.
+    pose proof (wf_prop_values ct a Wa) as PA. pose proof (wf_prop_values ct b Wb) as PB.
+    pose proof (wf_child_shape ct a Wa) as SA. pose proof (wf_child_shape ct b Wb) as SB.
+    pose proof (wf_child_names ct a Wa) as NA. pose proof (wf_child_names ct b Wb) as NB.
+    pose proof (node_all_props _ _ _ Oa) as TA. pose proof (node_all_props _ _ _ Ob) as TB.
+    assert (KA : forall k, In k (nkids a) -> forall x, In x (snd (snd k)) ->
+                 size x < size a /\ wf_node ct x = true /\ node_values_ok ct x).
+    { intros k Hk x Hx. split; [exact (kid_smaller a k x Hk Hx)|]. split; [exact (wf_kids ct a Wa k Hk x Hx)|].
+      exact (node_all_kids _ _ _ Oa k Hk x Hx). }
+    assert (KB : forall k, In k (nkids b) -> forall x, In x (snd (snd k)) -> wf_node ct x = true /\ node_values_ok ct x).
+    { intros k Hk x Hx. split; [exact (wf_kids ct b Wb k Hk x Hx)|]. exact (node_all_kids _ _ _ Ob k Hk x Hx). }
+    clear Wa Wb Oa Ob.
+    destruct a as [aa c o ps ks], b as [ab c' o' ps' ks']. cbn [cls nprops nkids] in *. subst c'.
+    (* properties *)
+    unfold props_data, enc_props in E1.
+    apply props_peel in E1 as [Hprops Ekids].
+    2:{ intros f Hf. apply enc_field_comparable in Hf. assert (Hc := Hf).
+        unfold comparable in Hf. apply filter_In in Hf as [Hf _].
+        destruct (PA f Hf) as [v Ev]. destruct (PB f Hf) as [v' Ev']. exists v, v'. repeat split; auto.
+        - apply assoc_in in Ev. apply (TA _ Ev). exists f. auto.
+        - apply assoc_in in Ev'. apply (TB _ Ev'). exists f. auto. }
+    (* children *)
+    rewrite !kids_cid_only_blk in Ekids.
+    assert (FV : forall g, In g (kid_fields ct c true) ->
+              field_value (map_view cid ks) g = field_value (map_view cid ks') g).
+    { apply blks_inj; auto.
+      - apply kid_fields_nodup.
+      - intros g Hg. apply kid_fields_in in Hg. unfold child_fields in Hg. apply filter_In in Hg as [Hg Hc].
+        apply (NO c g Hg); auto.
+      - intros g Hg. apply kid_fields_in in Hg. exists (child_kind g). rewrite !field_value_map_view.
+        split; apply shape_ok_okd; auto.
+      - intros g Hg. rewrite !field_value_map_view. cbn [snd].
+        split; intros d Hd; apply in_map_iff in Hd as (x & <- & _); apply cid_hex; auto. }
+    apply ceq_gen_unfold. split; [reflexivity|]. split.
+    - intros f Hf. apply Hprops. apply comparable_enc; auto.
+      unfold comparable in Hf. apply filter_In in Hf as [Hf _]. unfold prop_fields in Hf. apply filter_In in Hf as [Hf _].
+      apply (NO c f Hf).
+    - assert (Hd : NoDup (map fst ks)) by (rewrite <- NA; apply child_fields_nodup).
+      assert (Hd' : NoDup (map fst ks')) by (rewrite <- NB; apply child_fields_nodup).
+      rewrite <- (fields_lookup_all ks (child_fields ct c) NA Hd).
+      rewrite <- (fields_lookup_all ks' (child_fields ct c) NB Hd').
+      apply Forall2_map_same. intros f Hf. unfold krel. cbn [fst snd]. split; [reflexivity|].
+      specialize (FV f (proj2 (kid_fields_in ct c f) Hf)). rewrite !field_value_map_view in FV.
+      injection FV as Esh Emap. split; [exact Esh|].
+      apply map_eq_Forall2 in Emap. apply (Forall2_impl_in (fun x y => cid x = cid y)); [|exact Emap].
+      intros x y Hx Hy Exy.
+      apply field_value_in in Hx as (k & Hk & Hx). apply field_value_in in Hy as (k' & Hk' & Hy).
+      destruct (KA k Hk x Hx) as (Hs & Wx & Ox). destruct (KB k' Hk' y Hy) as (Wy & Oy).
+      apply IH; auto.
+  Qed.
+
+  (* the statement with the class test of is_equal as a (redundant) premise *)
+  Theorem complete_framing : forall a b,
+    wf_node ct a = true -> wf_node ct b = true -> node_values_ok ct a -> node_values_ok ct b ->
+    cls a = cls b -> cid a = cid b -> ceq_r ct a b.
+  Proof. intros a b Wa Wb Oa Ob _. now apply complete_framing_strong. Qed.
+
+  Theorem is_equal_complete_framing : forall a b,
+    wf_node ct a = true -> wf_node ct b = true -> node_values_ok ct a -> node_values_ok ct b ->
+    is_equal H ct current a b = true -> ceq_r ct a b.
+  Proof. intros a b Wa Wb Oa Ob E. apply is_equal_char in E as [_ E]. now apply complete_framing_strong. Qed.
+
+  (* the class name alone is already determined by the digest *)
+  Corollary cid_determines_class : forall a b,
+    wf_node ct a = true -> wf_node ct b = true -> node_values_ok ct a -> node_values_ok ct b ->
+    cid a = cid b -> cls a = cls b.
+  Proof.
+    intros a b Wa Wb Oa Ob E. pose proof (complete_framing_strong a b Wa Wb Oa Ob E) as C.
+    destruct a, b. apply ceq_gen_unfold in C. cbn. tauto.
+  Qed.
+End Complete2.
+
+(* ===================================================================================================== *)
+(* Part 3: value-level injectivity of the rendering                                                      *)
+(* ===================================================================================================== *)
+Lemma decZ_int z : decZ z = lit (DecimalString.NilZero.string_of_int (Z.to_int z)).
+Proof. destruct z; reflexivity. Qed.
+
+Lemma decZ_inj z z' : decZ z = decZ z' -> z = z'.
+Proof.
+  rewrite !decZ_int. intros E. apply lit_inj in E.
+  apply (f_equal DecimalString.NilZero.int_of_string) in E.
+  assert (N : forall z, Z.to_int z <> Decimal.Pos Decimal.Nil /\ Z.to_int z <> Decimal.Neg Decimal.Nil).
+  { intros [| p | p]; cbn; split; try discriminate; intros [= E0]; exact (DecimalPos.Unsigned.to_uint_nonnil p E0). }
+  rewrite !DecimalString.NilZero.isi in E by apply N.
+  injection E as E. now apply DecimalZ.to_int_inj.
+Qed.
+
+(* The scalar fragment: None, bools, ints, strings, floats (by their repr), paths and enum members.
+   The rendering of an enum member shows its class and member name only; in a real enum the payload is a
+   function of (class, member): [et] is that function, and an enum value is well formed when it carries the
+   payload [et] assigns to it.  No identifier condition is needed at this level: the class name is read off the
+   type tag and cancelled from "Class.member". *)
+Definition scalar (et : pystr -> pystr -> pval) (v : pval) : Prop :=
+  match v with
+  | VTuple _ | VFset _ => False
+  | VEnum c m p => et c m = p
+  | _ => True
+  end.
+
+Theorem render_inj_scalar et v v' :
+  scalar et v -> scalar et v' -> tytag v = tytag v' -> stable_str v = stable_str v' -> veq v v'.
+Proof.
+  intros Sv Sv' Et Es.
+  destruct v, v'; cbn [scalar] in Sv, Sv'; try tauto; cbn [tytag] in Et;
+    try (vm_compute in Et; discriminate Et); cbn [stable_str py_str py_repr] in Es.
+  - constructor.
+  - destruct b, b0; try (vm_compute in Es; discriminate Es); constructor.
+  - apply decZ_inj in Es. subst. constructor.
+  - subst. constructor.
+  - apply app_inv_head in Et. apply app_inv_tail in Et. subst cls0.
+    apply app_inv_head in Es. apply app_inv_head in Es. subst. constructor.
+  - subst. constructor.
+  - subst. constructor.
+Qed.
+
+Section CompleteScalar.
+  Variable H : pystr -> pystr.
+  Variable ct : ctable.
+  Variable et : pystr -> pystr -> pval.
+  Hypothesis H_inj : forall x y, H x = H y -> x = y.
+  Hypothesis H_hex : forall x, forallb is_hex (H x) = true.
+  Hypothesis NO : names_ok ct.
+
+  Definition node_scalar (n : node) : Prop := node_all (fun _ => True) (on_comparable ct (scalar et)) n.
+
+  Theorem complete_scalar : forall a b,
+    wf_node ct a = true -> wf_node ct b = true -> node_values_ok ct a -> node_values_ok ct b ->
+    node_scalar a -> node_scalar b ->
+    content_id H ct current a = content_id H ct current b -> ceq ct a b.
+  Proof.
+    intros a b Wa Wb Oa Ob Sa Sb E. apply ceq_gen_veq.
+    apply (ceq_gen_mono render_eq veq (scalar et) ct); [|exact Sa|exact Sb|].
+    - intros v v' Sv Sv' [Et Es]. now apply (render_inj_scalar et).
+    - now apply (complete_framing_strong H ct H_inj H_hex NO).
+  Qed.
+End CompleteScalar.
+
+(* ===================================================================================================== *)
+(* Part 4: the premises are satisfiable (a collision-free hex-valued "digest", a class table, two trees)  *)
+(* ===================================================================================================== *)
+Lemma tohex_char c :
+  match hexval (hexdigit (nat_of_ascii c / 16)), hexval (hexdigit (nat_of_ascii c mod 16)) with
+  | Some x, Some y => ascii_of_nat (16 * x + y) = c
+  | _, _ => False
+  end.
+Proof. destruct c as [[] [] [] [] [] [] [] []]; vm_compute; reflexivity. Qed.
+
+Lemma unhex_tohex s : unhex (tohex s) = Some s.
+Proof.
+  induction s as [|c s IH]; [reflexivity|].
+  cbn [tohex unhex]. rewrite IH. pose proof (tohex_char c) as Hc.
+  destruct (hexval (hexdigit (nat_of_ascii c / 16))); [|tauto].
+  destruct (hexval (hexdigit (nat_of_ascii c mod 16))); [|tauto]. now rewrite Hc.
+Qed.
+
+Lemma tohex_inj x y : tohex x = tohex y -> x = y.
+Proof. intros E. apply (f_equal unhex) in E. rewrite !unhex_tohex in E. now injection E. Qed.
+
+Lemma tohex_hex x : forallb is_hex (tohex x) = true.
+Proof.
+  induction x as [|c x IH]; [reflexivity|]. cbn [tohex forallb]. rewrite IH.
+  pose proof (tohex_char c) as Hc. unfold is_hex.
+  destruct (hexval (hexdigit (nat_of_ascii c / 16))); [|tauto].
+  destruct (hexval (hexdigit (nat_of_ascii c mod 16))); [|tauto]. reflexivity.
+Qed.
+
+Definition ex_fd (name : string) (role : frole) (cmp : bool) : fdecl :=
+  {| fd_name := lit name; fd_role := role; fd_compare := cmp; fd_init := true; fd_kwonly := false |}.
+Definition ex_ct : ctable :=
+  [ {| cd_name := lit "Leaf"; cd_bases := [];
+       cd_own := [ ex_fd "name" RProp true; ex_fd "note" RProp false ] |};
+    {| cd_name := lit "Pair"; cd_bases := [];
+       cd_own := [ ex_fd "kind" RProp true; ex_fd "left" (RChild (KOpt true)) true;
+                   ex_fd "one" (RChild (KOpt false)) true; ex_fd "items" (RChild KTup) true ] |} ].
+Definition ex_et (c m : pystr) : pval := VInt 1.
+Definition ex_leaf (a : nat) (s note : string) : node :=
+  Node a (lit "Leaf") ONo [(lit "name", VStr (lit s)); (lit "note", VStr (lit note))] [].
+Definition ex_pair (a : nat) (note : string) : node :=
+  Node a (lit "Pair") ONo [(lit "kind", VEnum (lit "Color") (lit "RED") (VInt 1))]
+       [ (lit "left", (ShNone, []));
+         (lit "one", (ShOne, [ex_leaf (a + 1) "a):b" note]));
+         (lit "items", (ShMany, [ex_leaf (a + 2) "x" note; ex_leaf (a + 3) "y:[0]=" note])) ].
+Definition ex_a : node := ex_pair 0 "first".
+Definition ex_b : node := ex_pair 10 "second".
+
+Lemma ex_names_ok : names_ok ex_ct.
+Proof.
+  intros c f Hf. unfold fields_of, ex_ct in Hf. cbn [find_class cd_name] in Hf.
+  destruct (pystr_eqb_spec (lit "Leaf") c) as [<-|N1].
+  - vm_compute in Hf. destruct Hf as [<-|[<-|[]]]; vm_compute; split; auto; discriminate.
+  - destruct (pystr_eqb_spec (lit "Pair") c) as [<-|N2]; [|destruct Hf].
+    vm_compute in Hf. destruct Hf as [<-|[<-|[<-|[<-|[]]]]]; vm_compute; split; auto; discriminate.
+Qed.
+
+Lemma ex_values_all n : n = ex_a \/ n = ex_b ->
+  node_all (fun c => free_of ":" c = true) (fun _ _ v => tag_ok v /\ scalar ex_et v) n.
+Proof.
+  intros [->| ->]; cbn -[free_of lit]; repeat split; try reflexivity;
+    try (match goal with Hq : _ \/ _ |- _ =>
+           repeat (destruct Hq as [<-|Hq]; [cbn; try reflexivity; exact I|]); destruct Hq end).
+Qed.
+
+Lemma complete_premises :
+  (forall x y, tohex x = tohex y -> x = y) /\ (forall x, forallb is_hex (tohex x) = true) /\
+  names_ok ex_ct /\ wf_node ex_ct ex_a = true /\ wf_node ex_ct ex_b = true /\
+  node_values_ok ex_ct ex_a /\ node_values_ok ex_ct ex_b /\
+  node_scalar ex_ct ex_et ex_a /\ node_scalar ex_ct ex_et ex_b /\
+  cls ex_a = cls ex_b /\ content_id tohex ex_ct current ex_a = content_id tohex ex_ct current ex_b /\
+  ex_a <> ex_b /\ size ex_a = 4.
+Proof.
+  split; [exact tohex_inj|]. split; [exact tohex_hex|]. split; [exact ex_names_ok|].
+  split; [vm_compute; reflexivity|]. split; [vm_compute; reflexivity|].
+  split; [|split; [|split; [|split]]].
+  - apply node_values_ok_all. eapply node_all_impl; [| |apply (ex_values_all ex_a); auto]; cbn; tauto.
+  - apply node_values_ok_all. eapply node_all_impl; [| |apply (ex_values_all ex_b); auto]; cbn; tauto.
+  - eapply node_all_impl; [| |apply (ex_values_all ex_a); auto]; [auto|]. intros c n v [_ Hs] _. exact Hs.
+  - eapply node_all_impl; [| |apply (ex_values_all ex_b); auto]; [auto|]. intros c n v [_ Hs] _. exact Hs.
+  - split; [reflexivity|]. split; [vm_compute; reflexivity|]. split; [discriminate|reflexivity].
+Qed.
+
+(* ===================================================================================================== *)
+(* Part 5: characters and joins used by the reprs of collections                                         *)
+(* ===================================================================================================== *)
+(* characters that cannot end an int / float literal: anything but the three the collection syntax uses *)
+Definition pch (c : ascii) : bool := nochar "," c && nochar ")" c && nochar "}" c.
+Lemma comma_sp : lit ", " = ["," ; " "]. Proof. reflexivity. Qed.
+
+Lemma join1 sep x : join_with sep [x] = x.
+Proof. reflexivity. Qed.
+Lemma join2 sep x y r : join_with sep (x :: y :: r) = x ++ sep ++ join_with sep (y :: r).
+Proof. reflexivity. Qed.
+
+Definition trail {A} (l : list A) : pystr := match l with [_] => [","] | _ => [] end.
+
+Definition zch (c : ascii) : bool := is_digit c || Ascii.eqb c "-".
+
+Lemma zdigits d : forallb is_digit (lit (NilZero.string_of_uint d)) = true.
+Proof. unfold NilZero.string_of_uint. destruct d; try reflexivity; apply (digits_string_of_uint (_ _)). Qed.
+
+Lemma forallb_impl {A} (p q : A -> bool) l : (forall x, p x = true -> q x = true) -> forallb p l = true -> forallb q l = true.
+Proof. intros Hpq. induction l as [|x l IH]; cbn; auto. intros E. apply andb_prop in E as [E1 E2]. rewrite Hpq, IH; auto. Qed.
+
+Lemma decZ_chars z : forallb zch (decZ z) = true /\ decZ z <> [].
+Proof.
+  assert (D : forall d, forallb zch (lit (NilZero.string_of_uint d)) = true).
+  { intros d. apply (forallb_impl is_digit); [|apply zdigits]. intros x Hx. unfold zch. now rewrite Hx. }
+  destruct z as [|p|p]; cbn [decZ].
+  - split; [reflexivity|discriminate].
+  - split; [apply D|]. pose proof (DecimalPos.Unsigned.to_uint_nonnil p).
+    unfold NilZero.string_of_uint. destruct (Pos.to_uint p); try congruence; discriminate.
+  - split; [|discriminate]. cbn [forallb]. rewrite D. reflexivity.
+Qed.
+
+Lemma zch_pch c : zch c = true -> pch c = true.
+Proof. destruct c as [[] [] [] [] [] [] [] []]; vm_compute; intros E; try discriminate E; auto. Qed.
+
+Lemma trail_map {A B} (f : A -> B) l : trail (map f l) = trail l.
+Proof. destruct l as [|? [|? ?]]; reflexivity. Qed.
+
+(* ===================================================================================================== *)
+(* Part 6: arbitrarily nested values                                                                     *)
+(* ===================================================================================================== *)
+(* ---------- 6a: repr of a string is uniquely readable (escapes and quote choice inverted) ---------- *)
+Definition unesc1 (s : pystr) : option (ascii * pystr) :=
+  match s with
+  | [] => None
+  | c :: rest =>
+    if Ascii.eqb c "\" then
+      match rest with
+      | [] => None
+      | k :: rest' =>
+        if Ascii.eqb k "x" then
+          match rest' with
+          | h1 :: h2 :: rest'' =>
+            match hexval h1, hexval h2 with
+            | Some a, Some b => Some (ascii_of_nat (16 * a + b), rest'')
+            | _, _ => None
+            end
+          | _ => None
+          end
+        else if Ascii.eqb k "n" then Some (ascii_of_nat 10, rest')
+        else if Ascii.eqb k "r" then Some (ascii_of_nat 13, rest')
+        else if Ascii.eqb k "t" then Some (ascii_of_nat 9, rest')
+        else Some (k, rest')
+      end
+    else Some (c, rest)
+  end.
+
+Definition is_quote (q : ascii) : Prop := q = "'" \/ q = """".
+
+Lemma unesc1_esc q c X : is_quote q -> unesc1 (esc_char q c ++ X) = Some (c, X).
+Proof. intros [-> | ->]; destruct c as [[] [] [] [] [] [] [] []]; reflexivity. Qed.
+
+Lemma esc_head q c : is_quote q -> exists h t, esc_char q c = h :: t /\ h <> q.
+Proof.
+  intros [-> | ->]; destruct c as [[] [] [] [] [] [] [] []];
+    (eexists; eexists; split; [reflexivity|discriminate]).
+Qed.
+
+Lemma body_inj q : is_quote q -> forall s s' r r',
+  flat_map (esc_char q) s ++ q :: r = flat_map (esc_char q) s' ++ q :: r' -> s = s' /\ r = r'.
+Proof.
+  intros Hq. induction s as [|c s IH]; intros [|c' s'] r r' E; cbn [flat_map app] in E.
+  - injection E as ->. auto.
+  - exfalso. destruct (esc_head q c' Hq) as (h & t & Eh & Nh). rewrite Eh in E. cbn [app] in E. injection E as E _. congruence.
+  - exfalso. destruct (esc_head q c Hq) as (h & t & Eh & Nh). rewrite Eh in E. cbn [app] in E. injection E as E _. congruence.
+  - rewrite <- !app_assoc in E. apply (f_equal unesc1) in E. rewrite !unesc1_esc in E by assumption.
+    injection E as -> E. apply IH in E as [-> ->]. auto.
+Qed.
+
+Lemma str_repr_quote s : exists q, is_quote q /\ str_repr s = q :: flat_map (esc_char q) s ++ [q].
+Proof. unfold str_repr, is_quote. destruct (has_char "'" s && negb (has_char """" s)); eauto. Qed.
+
+Lemma str_repr_prefix s s' r r' : str_repr s ++ r = str_repr s' ++ r' -> s = s' /\ r = r'.
+Proof.
+  destruct (str_repr_quote s) as (q & Hq & ->). destruct (str_repr_quote s') as (q' & Hq' & ->).
+  intros E. cbn [app] in E. injection E as <- E. rewrite <- !app_assoc in E. cbn [app] in E.
+  now apply (body_inj q Hq) in E.
+Qed.
+
+(* ---------- 6b: joins of self-delimiting elements ---------- *)
+Definition sdelim (x y : pystr) : Prop :=
+  forall r r', stops pch r -> stops pch r' -> x ++ r = y ++ r' -> x = y /\ r = r'.
+Definition phead (x : pystr) : Prop := exists c t, x = c :: t /\ pch c = true.
+
+Lemma join_inj_g (t : ascii) : pch t = false -> t <> "," ->
+  forall xs ys r r', (forall x y, In x xs -> In y ys -> sdelim x y) -> xs <> [] -> ys <> [] ->
+  join_with (lit ", ") xs ++ t :: r = join_with (lit ", ") ys ++ t :: r' -> xs = ys /\ r = r'.
+Proof.
+  intros Ht Htc. rewrite comma_sp.
+  assert (Hcomma : pch "," = false) by reflexivity.
+  induction xs as [|x xs IH]; intros ys r r' D Nx Ny E; [congruence|].
+  destruct ys as [|y ys]; [congruence|].
+  assert (Dxy : sdelim x y) by (apply D; simpl; auto).
+  destruct xs as [|x2 xs], ys as [|y2 ys].
+  - rewrite !join1 in E. destruct (Dxy (t :: r) (t :: r') Ht Ht E) as [-> E']. injection E' as ->. auto.
+  - rewrite join1, (join2 _ y y2 ys) in E. norm_in E.
+    destruct (Dxy (t :: r) ("," :: _) Ht Hcomma E) as [_ E']. injection E' as E' _. congruence.
+  - rewrite join1, (join2 _ x x2 xs) in E. norm_in E.
+    destruct (Dxy ("," :: _) (t :: r') Hcomma Ht E) as [_ E']. injection E' as E' _. congruence.
+  - rewrite (join2 _ x x2 xs), (join2 _ y y2 ys) in E. norm_in E.
+    destruct (Dxy ("," :: _) ("," :: _) Hcomma Hcomma E) as [-> E']. injection E' as E'.
+    destruct (IH (y2 :: ys) r r') as [E1 E2]; try discriminate; [|exact E'|].
+    + intros a b Ha Hb. apply D; simpl; auto.
+    + rewrite E1. auto.
+Qed.
+
+Lemma tuple_inj_g xs ys r r' : (forall x y, In x xs -> In y ys -> sdelim x y) ->
+  Forall phead xs -> Forall phead ys ->
+  join_with (lit ", ") xs ++ trail xs ++ ")" :: r = join_with (lit ", ") ys ++ trail ys ++ ")" :: r' ->
+  xs = ys /\ r = r'.
+Proof.
+  assert (Hr : pch ")" = false) by reflexivity. assert (Hc : pch "," = false) by reflexivity.
+  intros D Fx Fy E.
+  destruct xs as [|x [|x2 xs]], ys as [|y [|y2 ys]];
+    rewrite ?join1, ?(join2 _ x x2 xs), ?(join2 _ y y2 ys), ?comma_sp in E; cbn [join_with trail] in E; norm_in E.
+  - cbn [app] in E. injection E as ->. auto.
+  - exfalso. inversion Fy as [|? ? (c & y' & -> & Pc) _]; subst. cbn [app] in E. injection E as <- _. congruence.
+  - exfalso. inversion Fy as [|? ? (c & y' & -> & Pc) _]; subst. cbn [app] in E. injection E as <- _. congruence.
+  - exfalso. inversion Fx as [|? ? (c & x' & -> & Pc) _]; subst. cbn [app] in E. injection E as -> _. congruence.
+  - destruct (D x y (or_introl eq_refl) (or_introl eq_refl) ("," :: _) ("," :: _) Hc Hc E) as [-> E']. injection E' as ->. auto.
+  - exfalso. destruct (D x y (or_introl eq_refl) (or_introl eq_refl) ("," :: _) ("," :: _) Hc Hc E) as [_ E']. discriminate.
+  - exfalso. inversion Fx as [|? ? (c & x' & -> & Pc) _]; subst. cbn [app] in E. injection E as -> _. congruence.
+  - exfalso. destruct (D x y (or_introl eq_refl) (or_introl eq_refl) ("," :: _) ("," :: _) Hc Hc E) as [_ E']. discriminate.
+  - assert (E2 : join_with (lit ", ") (x :: x2 :: xs) ++ ")" :: r = join_with (lit ", ") (y :: y2 :: ys) ++ ")" :: r').
+    { rewrite (join2 _ x x2 xs), (join2 _ y y2 ys), comma_sp. rewrite <- !app_assoc. cbn [app]. exact E. }
+    apply (join_inj_g ")" Hr) in E2; auto; discriminate.
+Qed.
+
+Lemma fset_inj_g xs ys r r' : (forall x y, In x xs -> In y ys -> sdelim x y) ->
+  Forall phead xs -> Forall phead ys ->
+  join_with (lit ", ") xs ++ "}" :: ")" :: r = join_with (lit ", ") ys ++ "}" :: ")" :: r' ->
+  xs = ys /\ r = r'.
+Proof.
+  assert (Hr : pch "}" = false) by reflexivity.
+  intros D Fx Fy E. destruct xs as [|x xs], ys as [|y ys].
+  - cbn [join_with app] in E. injection E as ->. auto.
+  - exfalso. inversion Fy as [|? ? (c & y' & -> & Pc) _]; subst.
+    destruct ys as [|y2 ys]; rewrite ?join1, ?(join2 _ (c :: y') y2 ys) in E; cbn [join_with app] in E; injection E as <- _; congruence.
+  - exfalso. inversion Fx as [|? ? (c & x' & -> & Pc) _]; subst.
+    destruct xs as [|x2 xs]; rewrite ?join1, ?(join2 _ (c :: x') x2 xs) in E; cbn [join_with app] in E; injection E as -> _; congruence.
+  - apply (join_inj_g "}" Hr) in E as [E1 E2]; auto; try discriminate. injection E2 as ->. auto.
+Qed.
+
+(* ---------- 6c: well-formed nested values, first characters ---------- *)
+(* a float repr: characters of  0-9 - + . e i n f a , starts like a number / inf / nan, is not an int literal *)
+Definition fch (c : ascii) : bool :=
+  zch c || Ascii.eqb c "." || Ascii.eqb c "e" || Ascii.eqb c "+" || Ascii.eqb c "i" || Ascii.eqb c "n"
+  || Ascii.eqb c "f" || Ascii.eqb c "a".
+Definition numhead (c : ascii) : bool := zch c || Ascii.eqb c "i" || Ascii.eqb c "n".
+Definition float_ok (r : pystr) : Prop :=
+  forallb fch r = true /\ forallb zch r = false /\ match r with [] => False | c :: _ => numhead c = true end.
+
+(* values allowed as elements of tuples / frozensets (at any depth): any string, path, int, bool, None; floats
+   with a float-like repr; enum members of the table et whose class name has no '.' and member name no ':' *)
+Fixpoint nested_ok (et : pystr -> pystr -> pval) (v : pval) : Prop :=
+  match v with
+  | VNone | VBool _ | VInt _ | VStr _ | VPath _ => True
+  | VFloat r => float_ok r
+  | VEnum c m p => free_of "." c = true /\ free_of ":" m = true /\ et c m = p
+  | VTuple l | VFset l =>
+      (fix all (l : list pval) : Prop := match l with [] => True | x :: t => nested_ok et x /\ all t end) l
+  end.
+
+Lemma nested_ok_list et l :
+  (fix all (l : list pval) : Prop := match l with [] => True | x :: t => nested_ok et x /\ all t end) l
+  <-> Forall (nested_ok et) l.
+Proof.
+  induction l as [|x l IH]; split; intros Hl.
+  - constructor.
+  - exact I.
+  - destruct Hl as [Hx Hl]. constructor; [exact Hx|]. apply IH. exact Hl.
+  - inversion Hl as [|? ? Hx Hl']; subst. split; [exact Hx|]. apply IH. exact Hl'.
+Qed.
+
+Lemma pval_ind_deep (P : pval -> Prop) :
+  P VNone -> (forall b, P (VBool b)) -> (forall z, P (VInt z)) -> (forall s, P (VStr s)) ->
+  (forall c m p, P p -> P (VEnum c m p)) -> (forall r, P (VFloat r)) -> (forall p, P (VPath p)) ->
+  (forall l, Forall P l -> P (VTuple l)) -> (forall l, Forall P l -> P (VFset l)) ->
+  forall v, P v.
+Proof.
+  intros H1 H2 H3 H4 H5 H6 H7 H8 H9. fix IH 1. intros [| b | z | s | c m p | r | p | l | l].
+  - exact H1.
+  - apply H2.
+  - apply H3.
+  - apply H4.
+  - apply H5. apply IH.
+  - apply H6.
+  - apply H7.
+  - apply H8. revert l. fix go 1. intros [|x t]; constructor; [apply IH|apply go].
+  - apply H9. revert l. fix go 1. intros [|x t]; constructor; [apply IH|apply go].
+Qed.
+
+Definition kind (v : pval) : nat :=
+  match v with
+  | VNone => 0 | VBool _ => 1 | VInt _ => 2 | VFloat _ => 2 | VStr _ => 3 | VEnum _ _ _ => 4
+  | VPath _ => 5 | VTuple _ => 6 | VFset _ => 7
+  end.
+Definition hclass (c : ascii) : nat :=
+  if Ascii.eqb c "N" then 0
+  else if Ascii.eqb c "T" || Ascii.eqb c "F" then 1
+  else if numhead c then 2
+  else if Ascii.eqb c "'" || Ascii.eqb c """" then 3
+  else if Ascii.eqb c "<" then 4
+  else if Ascii.eqb c "P" then 5
+  else if Ascii.eqb c "(" then 6
+  else if Ascii.eqb c "f" then 7
+  else 8.
+
+Lemma numhead_class c : numhead c = true -> hclass c = 2 /\ pch c = true.
+Proof. destruct c as [[] [] [] [] [] [] [] []]; vm_compute; intros E; try discriminate E; auto. Qed.
+
+Lemma fch_pch c : fch c = true -> pch c = true.
+Proof. destruct c as [[] [] [] [] [] [] [] []]; vm_compute; intros E; try discriminate E; auto. Qed.
+
+Lemma repr_head et v : nested_ok et v -> exists h t, stable_repr v = h :: t /\ hclass h = kind v /\ pch h = true.
+Proof.
+  destruct v as [| b | z | s | c m p | r | p | l | l]; cbn [nested_ok stable_repr py_repr kind]; intros Hv.
+  - eexists; eexists; split; [reflexivity|split; reflexivity].
+  - destruct b; (eexists; eexists; split; [reflexivity|split; reflexivity]).
+  - destruct (decZ_chars z) as [Hc Hn]. destruct (decZ z) as [|h t]; [congruence|].
+    cbn [forallb] in Hc. apply andb_prop in Hc as [Hh _].
+    exists h, t. split; auto. apply numhead_class. unfold numhead. now rewrite Hh.
+  - destruct (str_repr_quote s) as (q & [-> | ->] & ->); (eexists; eexists; split; [reflexivity|split; reflexivity]).
+  - eexists; eexists; split; [reflexivity|split; reflexivity].
+  - destruct Hv as (_ & _ & Hh). destruct r as [|h t]; [tauto|]. exists h, t. split; auto. now apply numhead_class.
+  - eexists; eexists; split; [reflexivity|split; reflexivity].
+  - eexists; eexists; split; [reflexivity|split; reflexivity].
+  - eexists; eexists; split; [reflexivity|split; reflexivity].
+Qed.
+
+Lemma kind_eq et v v' r r' : nested_ok et v -> nested_ok et v' ->
+  stable_repr v ++ r = stable_repr v' ++ r' -> kind v = kind v'.
+Proof.
+  intros Hv Hv' E. destruct (repr_head et v Hv) as (h & t & Eh & <- & _). destruct (repr_head et v' Hv') as (h' & t' & Eh' & <- & _).
+  rewrite Eh, Eh' in E. cbn [app] in E. injection E as -> _. reflexivity.
+Qed.
+
+(* ---------- 6d: the repr of a nested value is self-delimiting and injective ---------- *)
+Definition Dv (et : pystr -> pystr -> pval) (v : pval) : Prop :=
+  forall v' r r', nested_ok et v' -> stops pch r -> stops pch r' ->
+    stable_repr v ++ r = stable_repr v' ++ r' -> veq v v' /\ r = r'.
+
+Lemma Dv_sdelim et a b : Dv et a -> nested_ok et b -> sdelim (stable_repr a) (stable_repr b).
+Proof.
+  intros Da Hb r r' Sr Sr' E. destruct (Da b r r' Hb Sr Sr' E) as [Hv Hr]. split; auto.
+  apply veq_same_render in Hv as (_ & Hv & _). exact Hv.
+Qed.
+
+Lemma Dv_inj et a b : Dv et a -> nested_ok et b -> stable_repr a = stable_repr b -> veq a b.
+Proof.
+  intros Da Hb E. apply (Da b [] []); cbn; auto. now rewrite !app_nil_r.
+Qed.
+
+Lemma reprs_delim et l l' : Forall (fun a => nested_ok et a -> Dv et a) l -> Forall (nested_ok et) l -> Forall (nested_ok et) l' ->
+  forall x y, In x (map stable_repr l) -> In y (map stable_repr l') -> sdelim x y.
+Proof.
+  intros IH Hl Hl' x y Hx Hy. apply in_map_iff in Hx as (a & <- & Ha). apply in_map_iff in Hy as (b & <- & Hb).
+  rewrite Forall_forall in IH, Hl, Hl'. apply (Dv_sdelim et); [apply IH|]; auto.
+Qed.
+
+Lemma reprs_phead et l : Forall (nested_ok et) l -> Forall phead (map stable_repr l).
+Proof.
+  induction 1 as [|a l Ha _ IH]; cbn [map]; constructor; auto.
+  destruct (repr_head et a Ha) as (h & t & E & _ & P). exists h, t. auto.
+Qed.
+
+Lemma reprs_veq et l l' : Forall (fun a => nested_ok et a -> Dv et a) l -> Forall (nested_ok et) l -> Forall (nested_ok et) l' ->
+  map stable_repr l = map stable_repr l' -> Forall2 veq l l'.
+Proof.
+  intros IH Hl Hl' E. apply map_eq_Forall2 in E.
+  apply (Forall2_impl_in (fun a b => stable_repr a = stable_repr b)); [|exact E].
+  intros a b Ha Hb Eab. rewrite Forall_forall in IH, Hl, Hl'. apply (Dv_inj et); [apply IH| |]; auto.
+Qed.
+
+Lemma decZ_pch z : forallb pch (decZ z) = true.
+Proof. apply (forallb_impl zch); [apply zch_pch|apply decZ_chars]. Qed.
+
+Lemma nested_delim et : forall v, nested_ok et v -> Dv et v.
+Proof.
+  induction v as [| b | z | s | c m p _ | fr | p | l IH | l IH] using pval_ind_deep;
+    intros Hv v' r r' Hv' Sr Sr' E; pose proof (kind_eq et _ _ _ _ Hv Hv' E) as K;
+    destruct v' as [| b' | z' | s' | c' m' p' | fr' | p' | l' | l']; cbn [kind] in K; try discriminate K; clear K.
+  - (* None *) cbn [stable_repr py_repr] in E. apply app_inv_head in E. split; [constructor|exact E].
+  - (* bool *) destruct b, b'; cbn [stable_repr py_repr] in E; try discriminate E; apply app_inv_head in E; split; auto; constructor.
+  - (* int / int *) cbn [stable_repr py_repr] in E.
+    destruct (split_term pch _ _ _ _ (decZ_pch z) (decZ_pch z') Sr Sr' E) as [Ez Er].
+    apply decZ_inj in Ez. subst. split; auto. constructor.
+  - (* int / float *) exfalso. cbn [stable_repr py_repr nested_ok] in *. destruct Hv' as (Hf & Hz & _).
+    destruct (split_term pch _ _ _ _ (decZ_pch z) (forallb_impl _ _ _ fch_pch Hf) Sr Sr' E) as [Ez _].
+    rewrite <- Ez in Hz. destruct (decZ_chars z) as [Hc _]. congruence.
+  - (* str *) cbn [stable_repr py_repr] in E. apply str_repr_prefix in E as [-> ->]. split; auto. constructor.
+  - (* enum *) cbn [stable_repr py_repr nested_ok] in *. destruct Hv as (Hc & Hm & Hp). destruct Hv' as (Hc' & Hm' & Hp').
+    norm_in E. injection E as E.
+    assert (S1 : nochar "." "." = false) by reflexivity. assert (S2 : nochar ":" ":" = false) by reflexivity.
+    destruct (split_unique (nochar ".") "." S1 _ _ _ _ Hc Hc' E) as [-> E1].
+    destruct (split_unique (nochar ":") ":" S2 _ _ _ _ Hm Hm' E1) as [-> E2].
+    rewrite Hp in Hp'. subst p'. injection E2 as E2. apply app_inv_head in E2. injection E2 as ->.
+    split; auto. constructor.
+  - (* float / int *) exfalso. cbn [stable_repr py_repr nested_ok] in *. destruct Hv as (Hf & Hz & _).
+    destruct (split_term pch _ _ _ _ (forallb_impl _ _ _ fch_pch Hf) (decZ_pch z') Sr Sr' E) as [Ez _].
+    rewrite Ez in Hz. destruct (decZ_chars z') as [Hc _]. congruence.
+  - (* float / float *) cbn [stable_repr py_repr nested_ok] in *. destruct Hv as (Hf & _). destruct Hv' as (Hf' & _).
+    destruct (split_term pch _ _ _ _ (forallb_impl _ _ _ fch_pch Hf) (forallb_impl _ _ _ fch_pch Hf') Sr Sr' E) as [-> ->].
+    split; auto. constructor.
+  - (* path *) cbn [stable_repr py_repr] in E. rewrite <- !app_assoc in E. apply app_inv_head in E.
+    apply str_repr_prefix in E as [-> E]. apply app_inv_head in E. split; auto. constructor.
+  - (* tuple *) cbn [nested_ok] in Hv, Hv'. apply nested_ok_list in Hv, Hv'.
+    cbn [stable_repr] in E.
+    change (match l with [_] => lit "," | _ => [] end) with (trail l) in E.
+    change (match l' with [_] => lit "," | _ => [] end) with (trail l') in E.
+    rewrite <- (trail_map stable_repr l), <- (trail_map stable_repr l') in E.
+    rewrite <- !app_assoc in E. apply app_inv_head in E. change (lit ")") with [")"] in E. cbn [app] in E.
+    apply tuple_inj_g in E as [Em Er].
+    + split; auto. constructor. now apply (reprs_veq et).
+    + now apply (reprs_delim et).
+    + now apply (reprs_phead et).
+    + now apply (reprs_phead et).
+  - (* frozenset *) cbn [nested_ok] in Hv, Hv'. apply nested_ok_list in Hv, Hv'.
+    cbn [stable_repr] in E. rewrite <- !app_assoc in E. apply app_inv_head in E.
+    change (lit "})") with ["}"; ")"] in E. cbn [app] in E.
+    assert (PI : forall m, Permutation (map stable_repr m) (isort pystr_leb (map stable_repr m))) by (intros; apply isort_perm).
+    apply fset_inj_g in E as [Em Er].
+    + split; auto.
+      assert (Pm : Permutation (map stable_repr l) (map stable_repr l')).
+      { eapply perm_trans; [apply PI|]. rewrite Em. apply Permutation_sym, PI. }
+      apply Permutation_map_inv in Pm as (l'' & Em' & Pl).
+      assert (Hl'' : Forall (nested_ok et) l'') by (eapply Permutation_Forall; eauto).
+      apply (veq_fset l l' l''); auto. now apply (reprs_veq et).
+    + intros x y Hx Hy. apply (reprs_delim et l l'); auto.
+      * eapply Permutation_in; [apply Permutation_sym, PI|exact Hx].
+      * eapply Permutation_in; [apply Permutation_sym, PI|exact Hy].
+    + eapply Permutation_Forall; [apply PI|]. now apply (reprs_phead et).
+    + eapply Permutation_Forall; [apply PI|]. now apply (reprs_phead et).
+Qed.
+
+(* ---------- 6e: value-level injectivity and completeness for nested values ---------- *)
+(* a property value: a scalar, or a tuple / frozenset whose elements are well-formed nested values *)
+Definition deep (et : pystr -> pystr -> pval) (v : pval) : Prop :=
+  match v with VTuple l | VFset l => Forall (nested_ok et) l | _ => scalar et v end.
+
+Theorem render_inj_deep et v v' :
+  deep et v -> deep et v' -> tytag v = tytag v' -> stable_str v = stable_str v' -> veq v v'.
+Proof.
+  intros Fv Fv' Et Es.
+  assert (G : forall w w', nested_ok et w -> nested_ok et w' -> stable_repr w = stable_repr w' -> veq w w').
+  { intros w w' Hw Hw' E. apply (Dv_inj et); auto. now apply nested_delim. }
+  destruct v as [| | | | | | | l | l], v' as [| | | | | | | l' | l'];
+    try (apply (render_inj_scalar et); auto; fail);
+    try (exfalso; cbn [tytag] in Et; vm_compute in Et; discriminate Et); cbn [deep] in Fv, Fv'.
+  - apply G; auto; cbn [nested_ok]; now apply nested_ok_list.
+  - apply G; auto; cbn [nested_ok]; now apply nested_ok_list.
+Qed.
+
+Section CompleteDeep.
+  Variable H : pystr -> pystr.
+  Variable ct : ctable.
+  Variable et : pystr -> pystr -> pval.
+  Hypothesis H_inj : forall x y, H x = H y -> x = y.
+  Hypothesis H_hex : forall x, forallb is_hex (H x) = true.
+  Hypothesis NO : names_ok ct.
+
+  Definition node_deep (n : node) : Prop := node_all (fun _ => True) (on_comparable ct (deep et)) n.
+
+  Theorem complete_deep : forall a b,
+    wf_node ct a = true -> wf_node ct b = true -> node_values_ok ct a -> node_values_ok ct b ->
+    node_deep a -> node_deep b ->
+    content_id H ct current a = content_id H ct current b -> ceq ct a b.
+  Proof.
+    intros a b Wa Wb Oa Ob Sa Sb E. apply ceq_gen_veq.
+    apply (ceq_gen_mono render_eq veq (deep et) ct); [|exact Sa|exact Sb|].
+    - intros v v' Sv Sv' [Et Es]. now apply (render_inj_deep et).
+    - now apply (complete_framing_strong H ct H_inj H_hex NO).
+  Qed.
+
+  (* content_id / is_equal is exactly structural content equality *)
+  Theorem cid_iff_ceq : forall a b,
+    wf_node ct a = true -> wf_node ct b = true -> node_values_ok ct a -> node_values_ok ct b ->
+    node_deep a -> node_deep b ->
+    (content_id H ct current a = content_id H ct current b <-> ceq ct a b).
+  Proof.
+    intros a b Wa Wb Oa Ob Sa Sb. split; [now apply complete_deep|]. now apply ceq_sound.
+  Qed.
+
+  Theorem is_equal_iff_ceq : forall a b,
+    wf_node ct a = true -> wf_node ct b = true -> node_values_ok ct a -> node_values_ok ct b ->
+    node_deep a -> node_deep b ->
+    (is_equal H ct current a b = true <-> ceq ct a b).
+  Proof.
+    intros a b Wa Wb Oa Ob Sa Sb. split.
+    - intros E. apply is_equal_char in E as [_ E]. now apply complete_deep.
+    - now apply is_equal_sound.
+  Qed.
+End CompleteDeep.
+
+(* ---------- 6f: the premises are satisfiable with nested values ---------- *)
+Definition ex_ct2 : ctable :=
+  [ {| cd_name := lit "Box"; cd_bases := [];
+       cd_own := [ ex_fd "t" RProp true; ex_fd "s" RProp true ] |} ].
+Definition ex_red : pval := VEnum (lit "Color") (lit "RED") (VInt 1).
+Definition ex_elems : list pval :=
+  [VInt (-12); VStr (lit "a, b'c)"); VTuple [VNone; VBool true]; VFloat (lit "2.5"); ex_red;
+   VPath (lit "/tmp/x"); VFset [VStr (lit "q""'")]].
+Definition ex_tuple : pval := VTuple ex_elems.
+Definition ex_box (a : nat) (s : list pval) : node :=
+  Node a (lit "Box") ONo [(lit "t", ex_tuple); (lit "s", VFset s)] [].
+Definition ex_a2 : node := ex_box 0 [VStr (lit "x"); VInt 3; VTuple []].
+Definition ex_b2 : node := ex_box 1 [VTuple []; VStr (lit "x"); VInt 3].
+
+Lemma ex_names_ok2 : names_ok ex_ct2.
+Proof.
+  intros c f Hf. unfold fields_of, ex_ct2 in Hf. cbn [find_class cd_name] in Hf.
+  destruct (pystr_eqb_spec (lit "Box") c) as [<-|N1]; [|destruct Hf].
+  vm_compute in Hf. destruct Hf as [<-|[<-|[]]]; vm_compute; split; auto; discriminate.
+Qed.
+
+Lemma ex_nested_tuple : nested_ok ex_et ex_tuple.
+Proof. cbn. repeat split; reflexivity. Qed.
+
+Lemma ex_deep n : n = ex_a2 \/ n = ex_b2 ->
+  node_all (fun c => free_of ":" c = true) (fun _ _ v => tag_ok v /\ deep ex_et v) n.
+Proof.
+  pose proof (proj1 (nested_ok_list ex_et ex_elems) ex_nested_tuple) as T.
+  intros [->| ->]; cbn -[free_of lit ex_tuple]; (split; [reflexivity|]); (split; [|exact I]);
+    intros q [<-|[<-|[]]]; cbn [snd]; (split; [exact I|]); try exact T;
+    cbn [deep]; repeat constructor.
+Qed.
+
+Lemma complete_premises_nested :
+  names_ok ex_ct2 /\ wf_node ex_ct2 ex_a2 = true /\ wf_node ex_ct2 ex_b2 = true /\
+  node_values_ok ex_ct2 ex_a2 /\ node_values_ok ex_ct2 ex_b2 /\
+  node_deep ex_ct2 ex_et ex_a2 /\ node_deep ex_ct2 ex_et ex_b2 /\
+  content_id tohex ex_ct2 current ex_a2 = content_id tohex ex_ct2 current ex_b2 /\
+  nprops ex_a2 <> nprops ex_b2.
+Proof.
+  split; [exact ex_names_ok2|].
+  split; [vm_compute; reflexivity|]. split; [vm_compute; reflexivity|].
+  split; [|split; [|split; [|split]]].
+  - apply node_values_ok_all. eapply node_all_impl; [| |apply (ex_deep ex_a2); auto]; cbn; tauto.
+  - apply node_values_ok_all. eapply node_all_impl; [| |apply (ex_deep ex_b2); auto]; cbn; tauto.
+  - eapply node_all_impl; [| |apply (ex_deep ex_a2); auto]; [auto|]. intros c n v [_ Hs] _. exact Hs.
+  - eapply node_all_impl; [| |apply (ex_deep ex_b2); auto]; [auto|]. intros c n v [_ Hs] _. exact Hs.
+  - split; [vm_compute; reflexivity|discriminate].
+Qed.
